@@ -1,6 +1,7 @@
 """C36 — signers are backed by a currently verifiable chain and expire in time.
 
-1. TLC explores spec/TrustSigner.tla: 9 TRC time lines (S1 -> S2 with rotated root; in grace, grace
+1. TLC explores spec/TrustSigner.tla: 11 TRC time lines (two of them with a TRC update that keeps the
+   root, so that a chain verifies against the latest TRC and its predecessor) (S1 -> S2 with rotated root; in grace, grace
    with expired predecessor, grace shorter / longer than everything else, grace over, no grace, latest
    not yet valid / expired, base TRC only) x key rings x up to 2 (quick) / 3 (thorough) chains out of 18
    (2 keys x issued under old / new / unknown root x 3 expiry times: before / beyond the TRC's, already passed).
